@@ -1529,7 +1529,9 @@ def convert_from_interleaved(args):
     eq = ",".join("".join(symbol_map[ix] for ix in term) for term in inputs)
     if nargs % 2 == 1:
         # has output specified
-        eq += f"->{''.join(symbol_map[ix] for ix in args[-1])}"
+        eq += "->" + "".join(
+            "..." if ix is ... else symbol_map[ix] for ix in args[-1]
+        )
     return eq, arrays
 
 
@@ -1608,6 +1610,9 @@ def parse_equation_ellipses(eq, shapes, tuples=False):
         # no ellipsis, just check for output
         if rhs:
             output = rhs[0]
+            if check_ellipsis(output):
+                # an ellipsis only in the output stands for zero dimensions
+                output = output.replace("...", "")
         else:
             output = find_output_str(lhs)
 
